@@ -201,6 +201,8 @@ func (fr *Frame) exec(in ssa.Instruction, st *State) error {
 		dk, _ := c.regMap(ks, vs)
 		empty := Term{fmt.Sprintf("((as const %s) false)", arraySort(ks, SBool)), arraySort(ks, SBool)}
 		st.set(dk, c.sc.define("mapdom", sto(c.get(st, dk), r, empty)))
+		c.privateRefs = append(c.privateRefs, privRef{r, x, fr})
+		fr.markEscaped(x)
 		fr.setVal(x, r)
 		return nil
 	case *ssa.MakeChan:
